@@ -35,6 +35,7 @@ func allProps() []*PropSpec {
 		propC07(),
 		propC06(),
 		propC18(),
+		propC15(),
 	}
 }
 
@@ -149,6 +150,30 @@ func propC18() *PropSpec {
 			js = append(js, jobsN(".", "VerifDataURIUnits", pick([]int{7}, rng(5, 8)), "3 headers x n payload units from {%23,a,x,y} x stub or not (encoding decision on longer payloads)")...)
 			js = append(js, jobsN(".", "VerifDataURIRuns", pick([]int{16}, []int{16, 40}), "payload = k x %23 + i x 'x' + j x 'y', k <= n: minifier shrinks/grows the payload across base64 quantum borders")...)
 			js = append(js, Job{Pkg: ".", Fn: "VerifDataURITwin", N: 2, ExpectFail: true, Desc: "vacuity twin"})
+			return js
+		},
+	}
+}
+
+func propC15() *PropSpec {
+	return &PropSpec{
+		ID:   "C15",
+		Rule: "one case = one feasible path of Add*/Minify/MinifyMimetype/Match (+ real parse.Mediatype) + reference dispatch model, over ALL registration histories of the stated length (5 kinds per step) and ALL media type strings of the stated length over {a b c / ; = space x}; non-trivial = completes with a distinct symbolic output",
+		Assumptions: []string{"media type string is well-formed: SP* tok/tok SP* (; SP* key SP* [= SP* value SP*])*", "regular expressions are two fixed overlapping patterns ^a/[bc]$ and ^[ab]/c$"},
+		Outside:     []string{"AddCmd/AddCmdRegexp (spawn processes)", "other regular expressions (regexp package is modelled for the two patterns)", "histories longer than the bound", "quoted parameter values, upper case"},
+		Stubs:       []string{"regexp.MustCompile/(*Regexp).Match/MatchString/String: harness model of the two patterns (natively the real regexp package)", "sync.RWMutex no-ops", "minifiers are recording stubs"},
+		Jobs: func(tier string) []Job {
+			var js []Job
+			q := tier == "quick"
+			pick := func(a, b []int) []int {
+				if q {
+					return a
+				}
+				return b
+			}
+			js = append(js, jobsN(".", "VerifDispatchHistory", pick([]int{3}, []int{3, 4}), "all histories of up to n registrations x 3-byte type x 4 parameter suffixes")...)
+			js = append(js, jobsN(".", "VerifDispatchParams", pick(rng(3, 5), rng(3, 6)), "up to one registration x media type strings of n bytes")...)
+			js = append(js, Job{Pkg: ".", Fn: "VerifDispatchTwin", N: 0, ExpectFail: true, Desc: "vacuity twin"})
 			return js
 		},
 	}
